@@ -332,9 +332,6 @@ impl ProgressState {
 
     /// The expected total duration (that is, elapsed time + expected ETA)
     pub fn duration(&self) -> Duration {
-        if self.len.is_none() || self.is_finished() {
-            return Duration::new(0, 0);
-        }
         self.started.elapsed().saturating_add(self.eta())
     }
 
